@@ -264,3 +264,73 @@ func VerifC06_ErrorWithoutRunIDWhileBusy() {
 }
 
 func init() { verifRegister("VerifC06_ErrorWithoutRunIDWhileBusy", VerifC06_ErrorWithoutRunIDWhileBusy) }
+
+// a well-behaved peer whose encoder omits empty fields: its step-fatal error for a blank step id has no run_id field at
+// all. It follows a work-done for another run on the same read loop; the waiting caller must still be failed.
+func VerifC06_PeerOmitsEmptyRunID() {
+	toSrvR, toSrvW := verifNewPipe()
+	fromSrvR, fromSrvW := verifNewPipe()
+	var srv sync.WaitGroup
+	srv.Add(1)
+	release := make(chan struct{})
+	verifSchedQuiet(true)
+	go func() {
+		defer srv.Done()
+		enc, dec := cbor.NewEncoder(fromSrvW), cbor.NewDecoder(toSrvR)
+		if !verifServeHello(enc, dec, fromSrvW, helloOK, 3) {
+			return
+		}
+		for {
+			var m DecodedRuntimeMessage
+			if err := dec.Decode(&m); err != nil {
+				return
+			}
+			switch m.MessageID {
+			case MessageTypeWorkStart:
+				var ws WorkStartMessage
+				_ = cbor.Unmarshal(m.RawMessageData, &ws)
+				switch {
+				case ws.StepID == "":
+					// no run_id key in the message
+					_ = enc.Encode(map[string]any{"id": uint32(MessageTypeError), "data": map[string]any{"error": "missing step id", "step_fatal": true, "server_fatal": false}})
+				case m.RunID == "held":
+					go func() {
+						<-release
+						_ = enc.Encode(RuntimeMessage{MessageTypeWorkDone, "held", WorkDoneMessage{StepID: "inc", OutputID: "ok", OutputData: map[string]any{"o": int64(1)}}})
+					}()
+				default:
+					_ = enc.Encode(RuntimeMessage{MessageTypeWorkDone, m.RunID, WorkDoneMessage{StepID: "inc", OutputID: "ok", OutputData: map[string]any{"o": int64(7)}}})
+				}
+			case MessageTypeClientDone:
+				_ = toSrvR.Close()
+				_ = fromSrvW.Close()
+				return
+			}
+		}
+	}()
+	client := NewClientWithLogger(&verifChan{r: fromSrvR, w: toSrvW}, nil)
+	_, err := client.ReadSchema()
+	verifSchedQuiet(false)
+	verifAssert("C06/omit/handshake", err == nil)
+	if err != nil {
+		return
+	}
+	verifReach("C06/omit/started")
+	var wg sync.WaitGroup
+	var held ExecutionResult
+	wg.Add(1)
+	go func() { defer wg.Done(); held = verifExec(client, "held", 1) }() // keeps the read loop alive
+	rc := verifExec(client, "rc", 5)
+	verifAssert("C06/omit/completed-run", rc.Error == nil)
+	rb := client.Execute(schema.Input{RunID: "rb", ID: "", InputData: map[string]any{"n": int64(1)}}, nil, nil)
+	verifAssert("C06/omit/blank-step-execute-returns-an-error", rb.Error != nil)
+	close(release)
+	wg.Wait()
+	verifAssert("C06/omit/run-in-flight-returns", held.Error != nil || held.OutputID == "ok")
+	cerr := client.Close()
+	verifAssert("C06/omit/close", cerr == nil)
+	srv.Wait()
+	verifReach("C06/omit/end")
+}
+
+func init() { verifRegister("VerifC06_PeerOmitsEmptyRunID", VerifC06_PeerOmitsEmptyRunID) }
